@@ -799,7 +799,12 @@ def update_inv_sum_diag(invA: np.ndarray, diagonal: np.ndarray) -> np.ndarray:
                  np.outer(inv_matrix[:, p_index], inv_matrix[p_index, :]))
         return term1 / (1 + p_diagonal_element * p_indexed_element)
 
-    new_inv = invA.copy()
+    # The returned matrix must be able to hold the update terms: with the dtype
+    # of `invA` they would be truncated (numpy refuses the in-place update) when
+    # `invA` has an integer dtype, or when `invA` is real and the diagonal is
+    # complex.
+    new_inv = invA.astype(
+        np.result_type(invA.dtype, diagonal.dtype, np.float64))
     for index, diagonal_element in zip(range(diagonal.size), diagonal):
         indexed_element = new_inv[index, index]
         new_inv -= calc_update_term(new_inv, index, indexed_element,
